@@ -114,6 +114,8 @@ class Server(object):
         '''
         Subscribe a connection to a channel
         '''
+        if chan in source.active_subscriptions:
+            return
         SUBSCRIPTIONS.labels(source.ak, chan).inc()
         self.subscriptions[chan].append(source)
         source.active_subscriptions.add(chan)
